@@ -3,9 +3,11 @@ package c14
 import (
 	"encoding/json"
 	"fmt"
+	plrt "github.com/GuanceCloud/platypus/pkg/engine/runtime"
 	"github.com/GuanceCloud/platypus/pkg/engine/runtimev2"
 	"os"
 	"path/filepath"
+	"strings"
 	"sync"
 	"sync/atomic"
 	"testing"
@@ -458,6 +460,125 @@ func TestSignalWithOtherMethods(t *testing.T) {
 		}
 	}
 	evid.Exhaustive("non-terminating program x interpreter x poll at which a signal with a larger method set fires", n)
+}
+
+// TestHostKeepsOneTask: a host that takes one task from the pool and initialises it again for every run (the exported
+// GetContext / InitCtx / RunStmts), each run with a signal object of its own: every run - the scripts it reaches
+// through use() included - polls the signal of that run, and stops when it fires.
+func TestHostKeepsOneTask(t *testing.T) {
+	call, check := sem.V1Tables()
+	sets := []map[string]string{
+		{"main.p": "probe(\"start\")\nuse(\"s1.p\")\nprobe(\"after\")", "s1.p": "for ;; {\n  probe(\"callee\")\n}"},
+		{"main.p": "for ;; {\n  use(\"s1.p\")\n}", "s1.p": "probe(\"once\")\nfor x in [1, 2, 3] {\n  probe(\"x\", x)\n}"},
+		{"main.p": "use(\"s1.p\")", "s1.p": "use(\"s2.p\")", "s2.p": "for ;; { }"},
+		{"main.p": "for ;; {\n  probe(\"top\")\n}"},
+	}
+	n := 0
+	for si, set := range sets {
+		ok, errs, crash := impl.LoadV1(set, call, check)
+		if len(errs) > 0 || crash != nil {
+			t.Fatalf("harness: set %d does not load: %v %v", si, errs, crash)
+		}
+		script := ok["main.p"]
+		rp := replay{(&sem.Case{Texts: set, Root: "main.p"}).Replay("one task, initialised again for every run with a signal of its own"), 0}
+		done := make(chan string, 1)
+		evid.Watch(fmt.Sprintf("one-task-%d", si), "runs on one re-initialised task", rp)
+		go func() {
+			defer func() {
+				if r := recover(); r != nil {
+					done <- fmt.Sprint("panic: ", r)
+				}
+			}()
+			task := plrt.GetContext()
+			var sigs []*probe.Sig
+			for run, k := range []int{7, 3, 50, 1, 20} {
+				sig := &probe.Sig{FireAt: k}
+				sigs = append(sigs, sig)
+				pt := impl.NewPoint("m", nil, map[string]any{})
+				plrt.InitCtx(task, pt, script, sig)
+				if err := plrt.RunStmts(task, script.Ast); err != nil {
+					done <- fmt.Sprintf("run %d returned an error: %v", run+1, err)
+					return
+				}
+				if sig.Polls < k {
+					done <- fmt.Sprintf("run %d returned after %d polls of its signal, which fires at poll %d (the program does not terminate by itself)", run+1, sig.Polls, k)
+					return
+				}
+				if sig.AfterHit > 0 {
+					done <- fmt.Sprintf("run %d: %d probe call(s) executed after its signal had fired", run+1, sig.AfterHit)
+					return
+				}
+				for prev, ps := range sigs[:run] {
+					if ps.Polls > []int{7, 3, 50, 1, 20}[prev]+8 {
+						done <- fmt.Sprintf("run %d kept polling the signal of run %d (%d polls by now)", run+1, prev+1, ps.Polls)
+						return
+					}
+				}
+			}
+			plrt.PutContext(task)
+			done <- "ok"
+		}()
+		res := <-done
+		evid.Unwatch()
+		if res != "ok" {
+			rk.Fail(t, fmt.Sprintf("one-task-%d", si), rp, "v1, one task re-initialised per run: %s", res)
+		}
+		evid.Case(fmt.Sprintf("onetask/%d", si), true, "host-keeps-one-task")
+		n++
+	}
+	evid.Exhaustive("script set x five runs on one re-initialised task, each with its own signal", n)
+}
+
+// TestPollFromHostFunction (v2): a host function that asks the task whether it has been told to stop - and so observes
+// the signal in the middle of a statement - does not change what a cancelled run is: it returns without an error after
+// at most the statement in progress; nothing of a later statement runs.
+func TestPollFromHostFunction(t *testing.T) {
+	stmts := []string{
+		"x = [ppoll(), pval(1)]", "a, b = ppoll(), pval(2)", "if ppoll() == pval(true) { probe(\"s-then\") }", "y = pval(ppoll())", "z = {\"k\": ppoll(), \"j\": pval(3)}",
+		"for i = 0; pval(i) < 2 && ppoll() == false; i = pval(i + 1) { probe(\"s-body\", i) }", "w = pval(1) + pval(2) * pval(3)\nv = ppoll() || pval(false)",
+	}
+	n := 0
+	for si, st := range stmts {
+		// the statement under test sits between numbered statements, inside a loop that runs three times
+		src := "probe(\"s0\")\nfor r = 0; r < 3; r = r + 1 {\n  probe(\"s1\", r)\n  " + strings.ReplaceAll(st, "\n", "\n  ") + "\n  probe(\"s2\", r)\n}\nprobe(\"s3\")"
+		s, err, crash := impl.LoadV2("main.p", src, sem.V2Fns())
+		if err != nil || crash != nil {
+			t.Fatalf("harness: %q does not load: %v %v", src, err, crash)
+		}
+		full := &probe.Trace2{}
+		if rerr, crash := impl.RunV2(s, nil, runtimev2.WithPrivate(map[runtimev2.TaskP]any{probe.TraceKey: full})); rerr != nil || crash != nil {
+			t.Fatalf("harness: uninterrupted run of %q fails: %v %v", src, rerr, crash)
+		}
+		for k := 1; k <= 80; k++ {
+			sig := &probe.Sig{FireAt: k}
+			tr := &probe.Trace2{Sig: sig}
+			rp := replay{(&sem.Case{Texts: map[string]string{"main.p": src}, Root: "main.p", V2: true}).Replay("a host function polls the task in the middle of a statement"), k}
+			rerr, crash := impl.RunV2(s, sig, runtimev2.WithPrivate(map[runtimev2.TaskP]any{probe.TraceKey: tr}))
+			if crash != nil {
+				rk.Fail(t, "host-poll", rp, "v2: run crashed: %s", crash.Value)
+			}
+			if rerr != nil {
+				rk.Fail(t, "host-poll", rp, "v2: a run cancelled at poll %d returned an error instead of nothing: %v\nscript:\n%s", k, rerr, src)
+			}
+			// after the first record that saw the signal fired, only records of the statement in progress may follow:
+			// never a record of the numbered statements s1 / s2 / s3
+			seenFired := false
+			for _, r := range tr.Trace {
+				if seenFired && (r.Label == "s1" || r.Label == "s2" || r.Label == "s3") {
+					rk.Fail(t, "host-poll", rp, "v2: statement %s ran after the signal had been observed (poll %d)\ntrace: %v\nscript:\n%s", r.Label, k, tr.Trace, src)
+				}
+				if r.Fired {
+					seenFired = true
+				}
+			}
+			if sig.Polls < k && len(tr.Trace) < len(full.Trace) {
+				rk.Fail(t, "host-poll", rp, "v2: the run stopped after %d polls although the signal fires at poll %d", sig.Polls, k)
+			}
+			n++
+		}
+		evid.Case(fmt.Sprintf("hostpoll/%d", si), true, "poll-from-host-function")
+	}
+	evid.Exhaustive("statement with a polling host function x poll index 1..80", n)
 }
 
 func TestNilReceiverSignal(t *testing.T) {
